@@ -61,7 +61,7 @@ def run(ctx):
             "a layer whose ROOT carries the opaque marker: the kernel does not read the opaque xattr of a lowerdir root "
             "(observed through a real overlay mount: lower content stays visible), whereas SV.Overlay.descend and the "
             "harness' verifMerge honour it; overlay_equals_oci is therefore a statement about the documented rule, and "
-            "the end-to-end pass skips the overlay comparison for such stacks (counted as overlay-skipped-opaque-layer-root)",
+            "the end-to-end pass compares such stacks under their own signature overlay-opaque-marker-on-layer-root-ignored-by-kernel, which is a recorded known finding",
             "end-to-end pass: real FUSE + overlayfs of this sandbox's kernel; a whiteout that overlayfs' readdir leaks "
             "from a lower-only directory (listed, lstat ENOENT) counts as absent",
             "db store: metadata ids of two db readers over the same blob coincide (TOC order); checked by the "
